@@ -539,7 +539,7 @@ func (w *World) canonResolved(v ssa.Value) string {
 		}
 		// exported functions and methods are vocabulary the rules use by name
 		// (ctx.Height(), GasPrice()…): only package-private helpers are looked through
-		if token.IsExported(cal.Name()) {
+		if cal.Parent() == nil && token.IsExported(cal.Name()) {
 			break
 		}
 		// and only helpers that merely compute a value: a helper with effects (it
